@@ -158,6 +158,7 @@ type c39Stats struct {
 	replays, replaysAfterRestart, replaysAfterSwitch, restarts                atomic.Int64
 	snaps, resnaps, switches, switchesWithDelta, switchesFenceFirst, cleanups atomic.Int64
 	forwardsChecked, createNoop                                               atomic.Int64
+	batchHarmless, batchStale, batchFailed, deliveredAfterFailedBatch         atomic.Int64
 }
 
 type c39Delta struct {
@@ -196,6 +197,8 @@ type c39Inst struct {
 	snapIdx     uint64            // source index covered by the last snapshot copy
 	reordered   bool              // a delta overtook an undelivered earlier delta for the same key
 	deltaWrites int               // accepted writes that travelled as deltas
+	failedBatch map[uint64]bool   // deltas whose last ApplyBatch failed (still undelivered)
+	taskSeeded  bool              // the competing channel-migration task exists on the target
 	broken      bool
 }
 
@@ -254,6 +257,26 @@ func (in *c39Inst) applyT(hashSlot uint16, data []byte) (string, error) {
 		return "", err
 	}
 	return string(res[0]), nil
+}
+
+// applyTBatch applies the delta and one companion command in ONE ApplyBatch of the target.
+func (in *c39Inst) applyTBatch(delta []byte, compHashSlot uint16, comp []byte) ([]string, error) {
+	in.idxT += 2
+	res, err := in.smT.ApplyBatch(c39Ctx, []multiraft.Command{
+		{SlotID: multiraft.SlotID(in.slotT), HashSlot: in.hs, Index: in.idxT - 1, Term: 1, Data: delta},
+		{SlotID: multiraft.SlotID(in.slotT), HashSlot: compHashSlot, Index: in.idxT, Term: 1, Data: comp}})
+	if err != nil {
+		return nil, err
+	}
+	return []string{string(res[0]), string(res[1])}, nil
+}
+
+// c39Task is a channel-migration task of the target's own hash slot; two tasks with the same id
+// and different content compete, the second create is answered stale when its batch commits.
+func c39Task(updatedAt int64) metadb.ChannelMigrationTask {
+	return metadb.ChannelMigrationTask{TaskID: "T1", Status: metadb.ChannelMigrationStatusRunning, ChannelID: "own-channel", ChannelType: 2,
+		Kind: metadb.ChannelMigrationKindLeaderTransfer, Phase: metadb.ChannelMigrationPhaseWriteFence, SourceNode: 1, TargetNode: 2, DesiredLeader: 2,
+		BaseChannelEpoch: 1, BaseLeaderEpoch: 1, CreatedAtMS: 100, UpdatedAtMS: updatedAt}
 }
 
 // restartT closes and reopens the target DB and builds a new state machine with the runtime
@@ -668,9 +691,71 @@ func (in *c39Inst) evDeliver(env *mc.Env) (string, error) {
 	}
 	wrapped := fsm.EncodeApplyDeltaCommand(multiraft.SlotID(in.slotS), row.SourceIndex, in.hs, row.Data)
 	first := !in.tgtApplied[row.SourceIndex]
-	res, err := in.applyT(in.hs, wrapped)
+	// The delta may share its ApplyBatch with another committed entry of the target's log:
+	// 0 alone, 1 a harmless valid command, 2 an ordinary write for the migrating hash slot the
+	// target does not own yet (ApplyBatch fails after the delta was staged), 3 a conditional
+	// command that is answered stale when the batch commits (the batch is re-applied one by one).
+	companion := env.Choose("delta-shares-batch-with", 4)
+	var res string
+	var err error
+	switch companion {
+	case 0:
+		res, err = in.applyT(in.hs, wrapped)
+	case 2:
+		beforeRows, beforeApplied := in.users(in.a.T), in.appliedOnT()
+		r2, e2 := in.applyTBatch(wrapped, in.hs, fsm.EncodeUpsertUserCommand(metadb.User{UID: "k0", Token: "non-owner-in-batch", DeviceFlag: 9, DeviceLevel: 9}))
+		if e2 == nil {
+			return obs, mc.Violatef("C39:non-owner-accepted-write", "the target does not own the migrating hash slot but an ApplyBatch carrying a delta and an ordinary write for it succeeded (%q)", r2)
+		}
+		if afterRows, afterApplied := in.users(in.a.T), in.appliedOnT(); !c39MapEq(beforeRows, afterRows) || fmt.Sprint(beforeApplied) != fmt.Sprint(afterApplied) {
+			return obs, mc.Violatef("C39:failed-batch-left-delta-effects", "the ApplyBatch carrying delta %s failed (%v) but the target went from %s %v to %s %v", label, e2, c39MapStr(beforeRows), beforeApplied, c39MapStr(afterRows), afterApplied)
+		}
+		if in.failedBatch == nil {
+			in.failedBatch = map[uint64]bool{}
+		}
+		in.failedBatch[row.SourceIndex] = true
+		in.st.batchFailed.Add(1)
+		return obs + " in a batch that failed (ordinary write for the hash slot not owned yet): not delivered", nil
+	default:
+		var comp []byte
+		compSlot := in.hsT
+		wantComp := fsm.ApplyResultOK
+		if companion == 1 {
+			comp = fsm.EncodeUpsertUserCommand(metadb.User{UID: "own", Token: fmt.Sprintf("t%d", in.idxT), DeviceFlag: 1, DeviceLevel: 1})
+		} else {
+			if !in.taskSeeded { // the competing task exists before the batch
+				if r0, e0 := in.applyT(in.hsT, fsm.EncodeCreateChannelMigrationTaskCommand(c39Task(100))); e0 != nil || r0 != fsm.ApplyResultOK {
+					in.fail("seeding the competing channel-migration task: %q %v", r0, e0)
+					return "?", nil
+				}
+				in.taskSeeded = true
+			}
+			comp = fsm.EncodeCreateChannelMigrationTaskCommand(c39Task(200))
+			wantComp = fsm.ApplyResultStaleMeta
+		}
+		var rs []string
+		rs, err = in.applyTBatch(wrapped, compSlot, comp)
+		if err == nil {
+			res = rs[0]
+			if rs[1] != wantComp {
+				in.fail("companion command %d answered %q, want %q", companion, rs[1], wantComp)
+				return "?", nil
+			}
+		}
+		if companion == 1 {
+			in.st.batchHarmless.Add(1)
+			obs += " (+valid command in the batch)"
+		} else {
+			in.st.batchStale.Add(1)
+			obs += " (+stale conditional command in the batch)"
+		}
+	}
 	if err != nil || res != fsm.ApplyResultOK {
 		return "delta-refused", mc.Violatef("C39:target-refused-delta", "target refused the delta %s (source index %d): result %q err %v", label, row.SourceIndex, res, err)
+	}
+	if in.failedBatch[row.SourceIndex] {
+		in.st.deliveredAfterFailedBatch.Add(1)
+		delete(in.failedBatch, row.SourceIndex)
 	}
 	if first {
 		c39Effect(in.tgtModel, label)
@@ -901,7 +986,7 @@ func (in *c39Inst) Canon() string {
 		Phase                                           uint8
 		Fence, LastOut, LastAck, SnapIdx                int
 		Outbox, Hist                                    []rl
-		AppliedOnT                                      []int
+		AppliedOnT, FailedBatch                         []int
 		DeltaWrites                                     bool
 	}{Started: in.started, Imported: in.imported, Switched: in.switched, Cleaned: in.cleaned, Reordered: in.reordered, Snaps: in.snaps, Ver: in.ver,
 		Src: in.users(in.a.S), Tgt: in.users(in.a.T), Model: in.model, HasState: hasState, Phase: st.Phase,
@@ -914,6 +999,11 @@ func (in *c39Inst) Canon() string {
 	}
 	for _, x := range in.appliedOnT() {
 		c.AppliedOnT = append(c.AppliedOnT, rank(x))
+	}
+	for _, r := range rows { // hidden in-memory state of the target may depend on it
+		if in.failedBatch[r.SourceIndex] {
+			c.FailedBatch = append(c.FailedBatch, rank(r.SourceIndex))
+		}
 	}
 	b, err := json.Marshal(c)
 	if err != nil {
@@ -967,7 +1057,7 @@ func TestVerifC39(t *testing.T) {
 		MaxDeviations: ev.Pick(r, 2, 3),
 		MaxStates:     ev.Pick(r, int64(400000), int64(6000000)),
 		Bounds: map[string]any{"keys": c39Keys, "writes": fmt.Sprintf("%v (w = upsert, c = create-if-absent; per-key version tokens) routed to the current owner; before the migration starts only one w:0", writes),
-			"snapshot_copies_max": maxSnaps, "deviations": "deliver a later outbox row first (<=3 rows ahead), deliver twice, lose the ack (redelivery), replay one of the 3 oldest delivered deltas other than the oldest, restart the target before a replay",
+			"snapshot_copies_max": maxSnaps, "deviations": "deliver a later outbox row first (<=3 rows ahead), the delta shares its ApplyBatch with a valid command / with an ordinary write for the hash slot the target does not own yet (batch fails, delta stays undelivered) / with a conditional command answered stale at commit (batch re-applied one by one), deliver twice, lose the ack (redelivery), replay one of the 3 oldest delivered deltas other than the oldest, restart the target before a replay",
 			"orchestrator": "start (outgoing delta targets) | snap (export+preserving import; only after start or fence) | fence (enter fence for target) | deliver (first outbox row -> apply_delta on T -> ack on S; only after import) | switch (only when fenced, imported, outbox empty) | cleanup"},
 		Note: "merging on: rows of S and T read back through the metadb API, durable migration state / outbox / applied-delta records with raft indexes replaced by their rank, orchestrator flags, delivered-delta history and the reference models; raft indexes only matter through equality and order",
 	})
@@ -987,6 +1077,10 @@ func TestVerifC39(t *testing.T) {
 	g("fence-marker-delivered", st.fenceMarker.Load(), 1)
 	g("duplicate-deliveries", st.dupDelivered.Load(), 1)
 	g("acks-lost", st.ackLost.Load(), 1)
+	g("delta-batched-with-valid-command", st.batchHarmless.Load(), 1)
+	g("delta-batched-with-command-answered-stale-at-commit", st.batchStale.Load(), 1)
+	g("delta-batched-with-ordinary-write-batch-failed", st.batchFailed.Load(), 1)
+	g("delta-delivered-after-its-batch-failed", st.deliveredAfterFailedBatch.Load(), 1)
 	g("redeliveries-after-lost-ack", st.redelivered.Load(), 1)
 	g("reordered-deliveries-other-key", st.reorderOtherKey.Load(), 1)
 	g("replays", st.replays.Load(), 10)
